@@ -77,6 +77,7 @@ class Replayer(object):
         self.objs = {}
         self.arts = {}
         self.cheap = {}
+        b._shared_rs = {}           # seed form 'shared': the RandomState objects handed out live for one behaviour
         np.random.seed(0)
         ev0 = beh[0] if beh and beh[0]['e'] == 'Setup' else None
         su_json = []
@@ -136,7 +137,7 @@ class Replayer(object):
                 elif e == 'Query':
                     m = self.objs[ev['o']]
                     shape = 'Query(%s,%s)' % (ev['m'], b.life(m))
-                    v = b.query(m, ev['m'])
+                    v = b.query_any(m, ev['m'])
                     out = self.classes.tol_id('q', P.canon(v))
                 elif e == 'Sample':
                     m = self.objs[ev['o']]
